@@ -164,6 +164,14 @@ func vKind(k int, tag string) *sdcpb.TypedValue {
 	return nil
 }
 
+func vPow10(n int) int64 {
+	r := int64(1)
+	for i := 0; i < n; i++ {
+		r *= 10
+	}
+	return r
+}
+
 // VerifEqualTypedValuesScalars: EqualTypedValues(a,b) <=> same kind and same payload,
 // for the kinds string/int/uint/bool/decimal/ascii/identityref/empty.
 func VerifEqualTypedValuesScalars() {
@@ -184,7 +192,12 @@ func VerifEqualTypedValuesScalars() {
 		case 3:
 			want = a.GetBoolVal() == b.GetBoolVal()
 		case 4:
-			want = verifrt.And(a.GetDecimalVal().Digits == b.GetDecimalVal().Digits, a.GetDecimalVal().Precision == b.GetDecimalVal().Precision)
+			// same NUMBER (digits / 10^precision), whatever the representation: the digits are
+			// kept small here so that scaling to the common precision 3 cannot overflow
+			da, db := a.GetDecimalVal(), b.GetDecimalVal()
+			verifrt.Assume(verifrt.And(da.Digits > -1000000, da.Digits < 1000000))
+			verifrt.Assume(verifrt.And(db.Digits > -1000000, db.Digits < 1000000))
+			want = da.Digits*vPow10(3-int(da.Precision)) == db.Digits*vPow10(3-int(db.Precision))
 		case 5:
 			want = a.GetAsciiVal() == b.GetAsciiVal()
 		case 6:
